@@ -211,8 +211,25 @@ def main(argv=None):
         m["functions"].update(r["functions"])
     results = [merged[k] for k in order]
 
+    extra = {}
+    if tier == "thorough" and (ROOT / "mutations" / f"{prop}.json").exists() and not os.environ.get("VERIF_NO_SELFMUT") \
+            and not os.environ.get("REDRESS_SRC"):
+        # self-mutation guard: semantic mutations on a scratch copy must fail a named obligation (reported, not a verdict)
+        from pyvc import selfmut
+        muts = json.loads((ROOT / "mutations" / f"{prop}.json").read_text())
+        from concurrent.futures import ThreadPoolExecutor
+        with ThreadPoolExecutor(4) as ex:
+            res = list(ex.map(lambda m: selfmut.run_one(prop, m, str(SRC_ROOT)), muts))
+        summ = []
+        for m, r in zip(muts, res):
+            exp = m.get("expect", "caught")
+            good = (r.get("exit") == 1) if exp == "caught" else (r.get("exit") == 0)
+            summ.append({"id": m["id"], "expect": exp, "as_expected": good, "exit": r.get("exit"), "failed": r.get("failed", [])[:3]})
+            if not good:
+                print(f"SELF-MUTATION: mutant {m['id']} expected {exp} but check exited {r.get('exit')}")
+        extra["self_mutation"] = {"mutants": len(muts), "as_expected": sum(1 for x in summ if x["as_expected"]), "results": summ}
     from pyvc.report import finish
-    return finish(prop, tier, seed, tasks, results, time.time() - t0, load_known())
+    return finish(prop, tier, seed, tasks, results, time.time() - t0, load_known(), extra)
 
 
 if __name__ == "__main__":
